@@ -77,5 +77,8 @@ ScaleLaw ==
 Emit == PrintT(ToJson([kind |-> "refcell", fam |-> fam, dim |-> dim,
                        tab |-> [e \in 1..dim |-> FaceTable(fam, dim, e)],
                        nchild |-> [e \in 1..(dim + 1) |-> NumChildren(fam, dim, e - 1)],
-                       rot |-> SetToSeq(Rot(fam, dim))]))
+                       rot |-> SetToSeq(Rot(fam, dim)),
+                       \* all orientation codes of an edge / a 2D face of this family (for mesh parts with their own topology)
+                       aut |-> [e \in 1..2 |-> SetToSeq(Aut(fam, e))],
+                       etab |-> FaceTable(fam, 2, 1)]))
 =============================================================================
